@@ -205,6 +205,13 @@ impl<P: PageTableFrameMapping> Mapper<Size1GiB> for MappedPageTable<'_, P> {
         if p3[page.p3_index()].is_unused() {
             return Err(FlagUpdateError::PageNotMapped);
         }
+        // The entry points to a level 2 table, so no 1GiB page is mapped here.
+        if !p3[page.p3_index()]
+            .flags()
+            .contains(PageTableFlags::HUGE_PAGE)
+        {
+            return Err(FlagUpdateError::PageNotMapped);
+        }
         p3[page.p3_index()].set_flags(flags | PageTableFlags::HUGE_PAGE);
 
         Ok(MapperFlush::new(page))
@@ -250,6 +257,10 @@ impl<P: PageTableFrameMapping> Mapper<Size1GiB> for MappedPageTable<'_, P> {
         let p3_entry = &p3[page.p3_index()];
 
         if p3_entry.is_unused() {
+            return Err(TranslateError::PageNotMapped);
+        }
+        // The entry points to a level 2 table, so no 1GiB page is mapped here.
+        if !p3_entry.flags().contains(PageTableFlags::HUGE_PAGE) {
             return Err(TranslateError::PageNotMapped);
         }
 
@@ -319,6 +330,13 @@ impl<P: PageTableFrameMapping> Mapper<Size2MiB> for MappedPageTable<'_, P> {
         if p2[page.p2_index()].is_unused() {
             return Err(FlagUpdateError::PageNotMapped);
         }
+        // The entry points to a level 1 table, so no 2MiB page is mapped here.
+        if !p2[page.p2_index()]
+            .flags()
+            .contains(PageTableFlags::HUGE_PAGE)
+        {
+            return Err(FlagUpdateError::PageNotMapped);
+        }
 
         p2[page.p2_index()].set_flags(flags | PageTableFlags::HUGE_PAGE);
 
@@ -378,6 +396,10 @@ impl<P: PageTableFrameMapping> Mapper<Size2MiB> for MappedPageTable<'_, P> {
         let p2_entry = &p2[page.p2_index()];
 
         if p2_entry.is_unused() {
+            return Err(TranslateError::PageNotMapped);
+        }
+        // The entry points to a level 1 table, so no 2MiB page is mapped here.
+        if !p2_entry.flags().contains(PageTableFlags::HUGE_PAGE) {
             return Err(TranslateError::PageNotMapped);
         }
 
